@@ -27,7 +27,7 @@ except ImportError:
         yaml = None
 
 from . import __version__ as VERSION
-from .dynamic_typing import ModelMeta, register_datetime_classes, registry
+from .dynamic_typing import ModelMeta, StringSerializableRegistry, register_datetime_classes, registry
 from .generator import MetadataGenerator
 from .models import ModelsStructureType
 from .models.attr import AttrsModelCodeGenerator
@@ -70,6 +70,7 @@ class Cli:
         self.initialized = False
         self.models_data: Dict[str, Iterable[dict]] = {}  # -m/-l
         self.enable_datetime: bool = False  # --datetime
+        self.disabled_str_types: List[str] = []  # --disable-str-serializable-types
         self.strings_converters: bool = False  # --strings-converters
         self.max_literals: int = -1  # --max-strings-literals
         self.merge_policy: List[ModelCmp] = []  # --merge
@@ -105,8 +106,7 @@ class Cli:
         dict_keys_fields: List[str] = namespace.dict_keys_fields
         preamble: str = namespace.preamble
 
-        for name in namespace.disable_str_serializable_types:
-            registry.remove_by_name(name)
+        self.disabled_str_types = list(namespace.disable_str_serializable_types)
 
         self.setup_models_data(namespace.model or (), namespace.list or (), parser)
         self.validate(merge_policy, framework, code_generator)
@@ -114,9 +114,8 @@ class Cli:
                       dict_keys_regex, dict_keys_fields, disable_unicode_conversion, preamble)
 
     def run(self):
-        if self.enable_datetime:
-            register_datetime_classes()
         generator = MetadataGenerator(
+            str_types_registry=self.str_types_registry,
             dict_keys_regex=self.dict_keys_regex,
             dict_keys_fields=self.dict_keys_fields
         )
@@ -141,6 +140,20 @@ class Cli:
             return f"Output is written to {self.output_file}"
         else:
             return output
+
+    @property
+    def str_types_registry(self) -> StringSerializableRegistry:
+        """
+        Own copy of the default registry: options of this call should not leak into the rest of the process
+        """
+        str_types_registry = StringSerializableRegistry(*registry.types)
+        str_types_registry.replaces.update(registry.replaces)
+        if self.enable_datetime:
+            register_datetime_classes(str_types_registry)
+        # Disable types after all of them are registered (datetime ones as well)
+        for name in self.disabled_str_types:
+            str_types_registry.remove_by_name(name)
+        return str_types_registry
 
     @property
     def version_string(self):
